@@ -329,3 +329,76 @@ Section Family.
     - intros NE. apply family_local; auto.
   Qed.
 End Family.
+
+(* ---------- further facts about the family ---------- *)
+Lemma parse_row_node pos r ts d r' : parse_row pos r ts = Ok (d, r') -> exists fs, d = DNode (r_node r) fs.
+Proof.
+  unfold parse_row. destruct (expect_words (r_words r) ts 0) as [[lp a]| | |]; cbn [bind]; try discriminate.
+  destruct (if r_ifexists r then if_exists a else Ok (false, a)) as [[ie b]| | |]; cbn [bind]; try discriminate.
+  destruct (r_name r).
+  - intros H. inversion H; subst. eauto.
+  - destruct (parse_ident b) as [[i c]| | |]; cbn [bind]; try discriminate. intros H. inversion H; subst. eauto.
+  - destruct (parse_path b) as [[ids c]| | |]; cbn [bind]; try discriminate. intros H. inversion H; subst. eauto.
+Qed.
+
+Lemma ddl_body_node ts d r : ddl_body ts = Some (Ok (d, r)) -> exists ty fs, d = DNode ty fs.
+Proof.
+  unfold ddl_body. destruct (kis (cur ts) "CREATE").
+  { destruct (find_row create_rows (cur (next ts))) as [rw|]; [|destruct (other_create (cur (next ts))); discriminate].
+    intros H. inversion H as [H1]. destruct (parse_row_node _ _ _ _ _ H1) as [fs ->]. eauto. }
+  destruct (is_kwlike (cur ts) "DROP").
+  { destruct (find_row drop_rows (cur (next ts))) as [rw|]; [|discriminate].
+    intros H. inversion H as [H1]. destruct (parse_row_node _ _ _ _ _ H1) as [fs ->]. eauto. }
+  destruct (is_kwlike (cur ts) "ANALYZE").
+  { destruct (expect_kw "ANALYZE" ts) as [[a ts1]| | |]; cbn [bind]; try discriminate. intros H. inversion H; subst. eauto. }
+  destruct (is_kwlike (cur ts) "ALTER" || is_kwlike (cur ts) "RENAME" || is_kwlike (cur ts) "GRANT" || is_kwlike (cur ts) "REVOKE"); discriminate.
+Qed.
+
+(* C09 on the family: no error exactly when the success path returned its node; otherwise one error and one Bad node *)
+Theorem sp_ddl_errors ts d r e : sp_ddl ts = Some (d, r, e) ->
+  (e = 0 /\ ddl_body ts = Some (Ok (d, r)) /\ exists ty fs, d = DNode ty fs) \/ (e = 1 /\ exists p q sk, d = DBad false p q sk).
+Proof.
+  unfold sp_ddl. destruct (ddl_body ts) as [[[d0 r0]|p| |]|] eqn:B; try discriminate.
+  - intros H. inversion H; subst. left. split; [reflexivity|]. split; [reflexivity|]. eapply ddl_body_node; eauto.
+  - destruct (sskip ts [] (ppos (cur ts))) as [[sk endp] rest]. intros H. inversion H; subst. right. eauto.
+  - destruct (sskip ts [] (ppos (cur ts))) as [[sk endp] rest]. intros H. inversion H; subst. right. eauto.
+  - destruct (sskip ts [] (ppos (cur ts))) as [[sk endp] rest]. intros H. inversion H; subst. right. eauto.
+Qed.
+
+(* C10 on the family: the Bad node of a rejected piece holds exactly the tokens of the piece, and parsing resumes at the terminator *)
+Theorem sp_ddl_bad p k d r : p <> [] -> Forall plainT p -> theaded k -> sp_ddl (p ++ k) = Some (d, r, 1) ->
+  d = DBad false (ppos (cur p)) (last_pend (ppos (cur p)) p) p /\ r = k.
+Proof.
+  intros NE F T. unfold sp_ddl. destruct (ddl_body (p ++ k)) as [[[d0 r0]|e0| |]|]; try discriminate;
+    rewrite (cur_app_ne p k NE), (sskip_plain p [] _ k F T); cbn [app]; intros H; inversion H; auto.
+Qed.
+
+(* C08 on the family: ParseStatement and ParseDDL return the same node for a statement that starts with CREATE, DROP or ANALYZE *)
+Lemma kwlike_excl t a b : bytes_eqb (to_upper (bs a)) (to_upper (bs b)) = false -> is_kwlike t a = true -> is_kwlike t b = false.
+Proof.
+  unfold is_kwlike, equal_fold_s, equal_fold. intros D H. apply andb_true_iff in H as [K E]. rewrite K. cbn [andb].
+  apply bytes_eqb_eq in E. rewrite E. exact D.
+Qed.
+
+Lemma kwlike_kind t a k : bytes_eqb (bs K_ident) (bs k) = false -> is_kwlike t a = true -> kis t k = false.
+Proof. unfold is_kwlike. intros D H. apply andb_true_iff in H as [K _]. exact (kd _ _ k K D). Qed.
+
+Lemma kind_kwlike t k a : bytes_eqb (bs k) (bs K_ident) = false -> kis t k = true -> is_kwlike t a = false.
+Proof. unfold is_kwlike. intros D H. rewrite (kd _ _ K_ident H D). reflexivity. Qed.
+
+Theorem family_entry_points_agree ts :
+  kis (cur ts) "CREATE" || is_kwlike (cur ts) "DROP" || is_kwlike (cur ts) "ANALYZE" = true -> sp_stmt ts = sp_ddl ts.
+Proof.
+  intros H. unfold sp_stmt. set (t := cur ts) in *.
+  apply orb_true_iff in H as [H|A]; [apply orb_true_iff in H as [C|D]|].
+  - rewrite (kd _ _ "@" C eq_refl), (kd _ _ "SELECT" C eq_refl), (kd _ _ "WITH" C eq_refl), (kd _ _ "(" C eq_refl), (kd _ _ "FROM" C eq_refl).
+    rewrite !(kind_kwlike t "CREATE" _ eq_refl C). rewrite C. reflexivity.
+  - rewrite (kwlike_kind t "DROP" "@" eq_refl D), (kwlike_kind t "DROP" "SELECT" eq_refl D), (kwlike_kind t "DROP" "WITH" eq_refl D),
+            (kwlike_kind t "DROP" "(" eq_refl D), (kwlike_kind t "DROP" "FROM" eq_refl D).
+    rewrite (kwlike_excl t "DROP" "INSERT" eq_refl D), (kwlike_excl t "DROP" "DELETE" eq_refl D), (kwlike_excl t "DROP" "UPDATE" eq_refl D).
+    rewrite D. cbn [orb]. rewrite !orb_true_r. reflexivity.
+  - rewrite (kwlike_kind t "ANALYZE" "@" eq_refl A), (kwlike_kind t "ANALYZE" "SELECT" eq_refl A), (kwlike_kind t "ANALYZE" "WITH" eq_refl A),
+            (kwlike_kind t "ANALYZE" "(" eq_refl A), (kwlike_kind t "ANALYZE" "FROM" eq_refl A).
+    rewrite (kwlike_excl t "ANALYZE" "INSERT" eq_refl A), (kwlike_excl t "ANALYZE" "DELETE" eq_refl A), (kwlike_excl t "ANALYZE" "UPDATE" eq_refl A).
+    rewrite A. cbn [orb]. rewrite !orb_true_r. reflexivity.
+Qed.
